@@ -70,19 +70,20 @@ def pattern_facts(schema: Any) -> dict:
     return {"pattern_anchored_start": p.startswith("^"), "pattern_anchored_end": p.endswith("$")}
 
 
-def param_verdict(root: dict, schema: Any, value: Any, location: str, spec: str) -> bool | None:
+def param_verdict(root: dict, schema: Any, value: Any, location: str, spec: str, *, decode_path: bool = True) -> bool | None:
+    """``decode_path=False``: ``value`` is already the decoded text of a path segment (no second percent-decoding)."""
     if location == "body":
         return verdict(root, schema, value, spec=spec)
     v = coerced_verdict(root, schema, value, location, spec=spec)
     if v is False and isinstance(value, str) and _allows_array(root, schema, spec):
         # default (simple / csv) serialisation of an array into one string
         # "" is both the empty array and the array holding one empty string (inherent ambiguity of the style)
-        raw = unquote_plus(value) if location == "path" else value
+        raw = unquote_plus(value) if location == "path" and decode_path else value
         for decoded in ([raw.split(",")] if raw else [[], [""]]):
             v2 = coerced_verdict(root, schema, decoded, location, spec=spec)
             if v2 is not False:
                 return v2
-    if v is False and location == "path" and isinstance(value, str):
+    if v is False and location == "path" and isinstance(value, str) and decode_path:
         # quote_plus is how path values are escaped before they enter the template
         v2 = coerced_verdict(root, schema, unquote_plus(value), location, spec=spec)
         if v2 is not False:
